@@ -394,7 +394,17 @@ func (x *Exec) doTx(op *Op) {
 	hash := txHashOf(tx)
 	// ante stub (H4): every msg must be signed by the tx sender, who holds a key (20-byte account)
 	if _, ok := parseAcctRef(tx.Sender); !ok {
-		return
+		// ... except that a provider bound under an address of another length may sign responses: C13/C18 quantify
+		// over providers "of every byte length" having earnings, which presupposes that they can answer
+		if !strings.HasPrefix(tx.Sender, "x:") {
+			return
+		}
+		for i := range tx.Msgs {
+			if tx.Msgs[i].T != "respond" {
+				return
+			}
+		}
+		x.stats.inc("odd_length_provider_response")
 	}
 	for _, m := range msgs {
 		sg := m.GetSigners()
